@@ -68,5 +68,26 @@ impl<M: MovingAverageConstructor> FisherTransformInstance<M> {
 	proof { assert(fisher_values(old(self), *src, self, r.vals()[0], r.vals()[1], highest, lowest)); }
 //@end
 }
+
+// ---- C08 at indicator level (values; averaging kinds that cannot overshoot; non-zero source price): FisherTransform on a repeated candle: both lines stay 0
+pub open spec fn all_eq(v: Seq<R>, s: real) -> bool { forall|i: int| 0 <= i < v.len() ==> (#[trigger] v[i])@ == s }
+impl<M: MovingAverageConstructor> FisherTransformInstance<M> {
+	pub open spec fn const_state(&self, s: real) -> bool {
+		&&& self.inv() && s != 0real && all_eq(self.highest.window.view(), s) && all_eq(self.lowest.window.view(), s)
+		&&& self.prev_value@ == 0real && self.ma1.convex() && self.ma1.within(0real, 0real)
+	}
+}
+pub proof fn fisher_const_step<M: MovingAverageConstructor>(pre: &FisherTransformInstance<M>, src: ValueType, post: &FisherTransformInstance<M>, main: ValueType, sigl: ValueType, hi: ValueType, lo: ValueType)
+	requires pre.const_state(src@), post.inv(), post.cfg == pre.cfg, fisher_values(pre, src, post, main, sigl, hi, lo)
+	ensures main@ == 0real, sigl@ == 0real, post.const_state(src@)
+{
+	broadcast use bits_axiom;
+	let (a, b) = (post.highest.window.view(), post.lowest.window.view());
+	assert forall|i: int| 0 <= i < a.len() implies (#[trigger] a[i])@ == src@ by { if i < a.len() - 1 { assert(a[i] == pre.highest.window.view()[i + 1]); } }
+	assert forall|i: int| 0 <= i < b.len() implies (#[trigger] b[i])@ == src@ by { if i < b.len() - 1 { assert(b[i] == pre.lowest.window.view()[i + 1]); } }
+	assert(hi@ == src@ && lo@ == src@);
+	assert(hi.bits() == lo.bits());
+	<M::Instance as MovingAverage>::lemma_within_step(&pre.ma1, &main, &post.ma1, &sigl, 0real, 0real);
+}
 } // verus!
 fn main() {}
